@@ -279,7 +279,7 @@ Section Proto.
               | _ => g1
               end in
     match region_at (pc q) with
-    | ROut => (set_ret (Some Raised) (set_pc Done q), g2)
+    | ROut => (set_pc RelExc q, g2)
     | RPre => (set_dirty (set_pc ExcHold q), g2)
     | RTry => (set_rerr true (set_pc Err0 q), g2)
     | RHandler => (set_raised true (set_pc Fin0 q), g2)
